@@ -251,6 +251,55 @@ func c08RawInterp(n *parser.ASTNode) bool {
 	})
 }
 
+// c08CanonText: the printed text with every string literal replaced by "<hex of the value it lexes back to>" —
+// which spelling strconv.Quote / QuoteToASCII / … chooses for a literal is not constrained by the property, the
+// token it is read back as is. A text that does not lex is returned with a marker.
+func c08CanonText(txt string) string {
+	toks := parser.LexToList("t", txt)
+	var sb strings.Builder
+	last := 0
+	for _, t := range toks {
+		if t.ID == parser.TokenError {
+			return txt + "\x00does-not-lex"
+		}
+		if t.ID != parser.TokenSTRING || t.Pos < last || t.Pos >= len(txt) {
+			continue
+		}
+		start := t.Pos
+		i := start
+		raw := false
+		if txt[i] == 'r' {
+			raw = true
+			i++
+		}
+		if i >= len(txt) {
+			return txt + "\x00bad-literal"
+		}
+		q := txt[i]
+		i++
+		esc := false
+		for i < len(txt) && (txt[i] != q || esc) {
+			if raw {
+				esc = false
+			} else {
+				esc = !esc && txt[i] == '\\'
+			}
+			i++
+		}
+		if i >= len(txt) {
+			return txt + "\x00bad-literal"
+		}
+		sb.WriteString(txt[last:start])
+		if !t.AllowEscapes {
+			sb.WriteString("r")
+		}
+		sb.WriteString("\"" + hx(t.Val) + "\"")
+		last = i + 1
+	}
+	sb.WriteString(txt[last:])
+	return sb.String()
+}
+
 // ---- behaviour
 
 var c08Lim int
@@ -503,6 +552,23 @@ func c08SignStart(n *parser.ASTNode) bool {
 	})
 }
 
+// c08EndsInBlockNl: the printed statement ends with a mutex / sink block (their templates end in a newline) — the
+// statement itself or its last operand, transitively
+func c08EndsInBlockNl(n *parser.ASTNode) bool {
+	for n != nil {
+		if n.Name == parser.NodeMUTEX || n.Name == parser.NodeSINK {
+			return true
+		}
+		if len(n.Children) == 0 || n.Name == parser.NodeSTATEMENTS || n.Name == parser.NodeLIST || n.Name == parser.NodeMAP ||
+			n.Name == parser.NodeFUNCCALL || n.Name == parser.NodeIF || n.Name == parser.NodeLOOP || n.Name == parser.NodeTRY ||
+			n.Name == parser.NodeFUNC || n.Name == parser.NodeIDENTIFIER || n.Name == parser.NodeCOMPACCESS || n.Name == parser.NodePARAMS {
+			return false
+		}
+		n = n.Children[len(n.Children)-1]
+	}
+	return false
+}
+
 // c08BlockThenStatement: a mutex or sink statement followed by a statement that is not already preceded
 // by a blank line (their templates end in a newline: a blank line appears, and one more on the next run).
 func c08BlockThenStatement(n *parser.ASTNode) bool {
@@ -511,7 +577,7 @@ func c08BlockThenStatement(n *parser.ASTNode) bool {
 			return false
 		}
 		for i, c := range x.Children {
-			if i < len(x.Children)-1 && c != nil && (c.Name == parser.NodeMUTEX || c.Name == parser.NodeSINK) {
+			if i < len(x.Children)-1 && c != nil && c08EndsInBlockNl(c) {
 				nx := x.Children[i+1]
 				for nx != nil {
 					_, ld := c08Binding(nx)
@@ -618,6 +684,23 @@ func c08Sig(ast *parser.ASTNode, txt string) string {
 	return strings.Join(f, "+")
 }
 
+// c08BareReturnOperand: a bare return that is not a statement (an operand, a list element, a call argument): the
+// printer joins it with what follows on its line — `[return` NEWLINE `]` is printed `[return]`, which does not parse
+func c08BareReturnOperand(n *parser.ASTNode, sp bool) bool {
+	if n == nil {
+		return false
+	}
+	if n.Name == parser.NodeRETURN && len(n.Children) == 0 && !sp {
+		return true
+	}
+	for _, c := range n.Children {
+		if c08BareReturnOperand(c, n.Name == parser.NodeSTATEMENTS) {
+			return true
+		}
+	}
+	return false
+}
+
 // c08EndsWithBareReturn: class bare-return-at-end — the last statement of the program is a bare return
 func c08EndsWithBareReturn(n *parser.ASTNode) bool {
 	bare := func(x *parser.ASTNode) bool { return x != nil && x.Name == parser.NodeRETURN && len(x.Children) == 0 }
@@ -693,6 +776,7 @@ var c08Dir string
 
 // c08FormatFile runs the in-place format tool on a scratch file: ok = the file now holds exactly
 // PrettyPrint's text plus a newline.
+// c08FormatFile runs the in-place format tool on a scratch file.
 func c08FormatFile(src, txt string) string {
 	if c08Dir == "" {
 		d, err := os.MkdirTemp(".", "c08-format-")
@@ -719,10 +803,25 @@ func c08FormatFile(src, txt string) string {
 	if string(odata) != src {
 		return "other-file-touched"
 	}
-	if string(data) != txt+"\n" {
-		return "diff"
+	// the property's tool clause: the file is unchanged, or it parses to a tree equal to the original
+	// (modulo the known local differences raw flag / spliced product); never text that does not parse
+	if string(data) == src {
+		CountRun("format-tool.file-left-unchanged")
+		return "ok"
 	}
-	return "ok"
+	ast2, err := c08Parse(string(data))
+	if err != nil || ast2 == nil {
+		CountRun("format-tool.UNPARSEABLE-TEXT-WRITTEN")
+		return "broken"
+	}
+	if string(data) != txt+"\n" {
+		return "not-the-printed-text"
+	}
+	orig, _ := c08Parse(src)
+	if c08Equal(orig, ast2) || c08EqualMod(orig, ast2) {
+		return "ok"
+	}
+	return "diff"
 }
 
 // ---- the format tool on a directory tree (payload `FMT <variant>`): FormatFiles and the command-line entry Format
@@ -730,8 +829,8 @@ func c08FormatFile(src, txt string) string {
 // The tree holds parseable, unparseable and empty .ecal files, a file in a sub-directory, a file with another
 // extension and a file with a restrictive mode; variants call tool.FormatFiles or tool.Format (through the package's
 // verif-tag setter of its os.Args copy) on the directory or on a symbolic link to it, with another extension, or
-// with -help. Expected: exactly the files with the extension that parse AND print are replaced by PrettyPrint's
-// text plus a newline; every other file keeps its bytes; every file keeps its mode. Result: fmt=ok | fmt=<what differs>.
+// with -help. Expected: exactly the files with the extension that parse, print AND whose printed text parses again are
+// replaced by PrettyPrint's text plus a newline (a CRLF file keeps the CR inside its raw string); every other file keeps its bytes; every file keeps its mode. Result: fmt=ok | fmt=<what differs>.
 func c08FormatTree(variant int) string {
 	if c08Dir == "" {
 		d, err := os.MkdirTemp(".", "c08-format-")
@@ -760,6 +859,8 @@ func c08FormatTree(variant int) string {
 		{"sub/bad2.ecal", "\"unterminated", 0644},
 		{"sub/c.txt", "a  +  b", 0644},
 		{"notes.ecal.bak", "a  +  b", 0644},
+		{"crlf.ecal", "x := r'a\r\nb'\r\ny := 1\r\n", 0644},
+		{"closer.ecal", "x := [return\n]\ny := f(return\n)", 0644},
 	}
 	for _, f := range files {
 		p := filepath.Join(root, f.rel)
@@ -822,7 +923,10 @@ func c08FormatTree(variant int) string {
 		if !help && strings.HasSuffix(f.rel, ext) {
 			if ast, err := c08Parse(f.data); err == nil && ast != nil {
 				if txt, err := parser.PrettyPrint(ast); err == nil {
-					want = txt + "\n"
+					// a text that does not parse again must NOT be written (the file stays as it is)
+					if _, err := c08Parse(txt + "\n"); err == nil {
+						want = txt + "\n"
+					}
 				}
 			}
 		}
@@ -841,6 +945,9 @@ func c08FormatTree(variant int) string {
 }
 
 func c08Run(payload string) string {
+	if payload == "TABLES" {
+		return "tables"
+	}
 	if strings.HasPrefix(payload, "FMT ") {
 		v, _ := strconv.Atoi(strings.TrimPrefix(payload, "FMT "))
 		return c08FormatTree(v)
@@ -861,7 +968,8 @@ func c08Run(payload string) string {
 	// inside the class the printed text must at least PARSE (rt=*p) unless a # comment swallows the rest of its line
 	// or a composition access is pushed off the identifier's line — the two shapes known to produce unparseable text
 	rtWild := c08UnstablePost(ast, txt) || c08PostfixAfterNewline(ast) || inside
-	mayNotParse := c08UnstablePost(ast, txt) || c08PostfixAfterNewline(ast) || c08EndsWithBareReturn(ast)
+	mayNotParse := c08UnstablePost(ast, txt) || c08PostfixAfterNewline(ast) || c08EndsWithBareReturn(ast) ||
+		c08BareReturnOperand(ast, true)
 	idemWild := rtWild || ownBlank || c08HasPre(ast) || c08BlockThenStatement(ast)
 	sig := c08Sig(ast, txt)
 	rt, idem := "ok", "na"
@@ -897,7 +1005,13 @@ func c08Run(payload string) string {
 		CountRun("layout-class.idem-" + idem)
 		idem = "*"
 	}
-	res := "txt=" + hx(txt) + " rt=" + rt + " idem=" + idem
+	// (string literals in canonical spelling — unless a # comment swallows the rest of its line: literals behind it are
+	// no tokens of the printed text any more)
+	shown := txt
+	if !c08UnstablePost(ast, txt) {
+		shown = c08CanonText(txt)
+	}
+	res := "txt=" + hx(shown) + " rt=" + rt + " idem=" + idem
 	eqm := ""
 	if rt == "diff" {
 		// inside the known classes the trees must still agree modulo the known local difference
@@ -908,7 +1022,11 @@ func c08Run(payload string) string {
 		res += " eqm=" + eqm
 	}
 	if ff {
-		res += " ff=" + c08FormatFile(src, txt)
+		v := c08FormatFile(src, txt)
+		if rtWild && (v == "ok" || v == "diff") {
+			v = "*" // inside the class the file may be left alone or rewritten to a tree that differs; never broken
+		}
+		res += " ff=" + v
 	}
 	if ev && (rt == "ok" || (rt == "diff" && eqm == "ok")) { // (not for "*" / "*p")
 		orig := c08Behaviour(src)
